@@ -200,10 +200,39 @@ class ClassTable:
                 ax.append(IsSub(z3.IntVal(a), z3.IntVal(b)) == z3.BoolVal(self.issub(a, b)))
         return ax
 
+    def interesting_exceptions(self):
+        """Exception classes the code can discriminate on: those named in `except` clauses anywhere in the
+        repo (and the roots), closed under ancestors.  Symbolic exception classes are only ever compared
+        against these."""
+        got = getattr(self, "_interesting", None)
+        if got is not None:
+            return got
+        import ast as _ast
+        names = {"BaseException", "Exception"}
+        for m in self.index.modules.values():
+            for n in _ast.walk(m.tree):
+                if isinstance(n, _ast.ExceptHandler) and n.type is not None:
+                    ts = n.type.elts if isinstance(n.type, _ast.Tuple) else [n.type]
+                    for t in ts:
+                        if isinstance(t, _ast.Name):
+                            names.add(t.id)
+                        elif isinstance(t, _ast.Attribute):
+                            names.add(t.attr)
+        ids = set()
+        for nm in names:
+            k = self.ids.get(nm)
+            if k is None:
+                cands = [c.cid for c in self.info.values() if c.name == nm]
+                k = cands[0] if cands else None
+            if k is not None and self.issub(k, self.ids["BaseException"]):
+                ids |= {a for a in self.ancestors(k) if self.issub(a, self.ids["BaseException"])}
+        self._interesting = sorted(ids)
+        return self._interesting
+
     def exc_closure(self, c):
-        """Constraints for a symbolic exception class id c (closure over the known lattice)."""
+        """Constraints for a symbolic exception class id c (closure over the classes the code discriminates)."""
         out = [IsSub(c, z3.IntVal(self.ids["BaseException"]))]
-        exc = [k for k in self.known_ids() if self.issub(k, self.ids["BaseException"])]
+        exc = self.interesting_exceptions()
         for a in exc:
             for p in self.parents[a]:
                 if p in exc:
@@ -460,6 +489,9 @@ class PathCtx:
                            pc=list(self.pc), goal=g, meta=meta)
         self.solver.pop()
         self.ex.record(name, kind, fail is None, fail, dt=time.time() - t0)
+        if fail is not None and fail.status == "violated" and self._check(g) == z3.unsat:
+            # the goal is impossible on this path: nothing meaningful follows (the failure is recorded)
+            raise PathAbort("path ends at failed obligation %s" % name)
         self.assume(g)
         return fail is None
 
@@ -589,6 +621,8 @@ class State:
         self.writes = []        # (kind, ref term, name)
         self.ghost = {}
         self.fresh_refs = set()
+        self.reg_class = {}
+        self.heap_gen = 0         # bumped by havoc-all: names of not-yet-materialised field arrays
         self.globals_store = {}  # (module, name) -> term for mutable module globals / class attrs
         for ref, (cid, m) in table.enum_by_ref.items():
             ctx.assume(z3.Select(self.typeof, z3.IntVal(ref)) == z3.IntVal(cid))
@@ -603,12 +637,13 @@ class State:
         s.globals_store = dict(self.globals_store)
         s.log_len = len(self.log)
         s.state = self
+        s.heap_gen = self.heap_gen
         return s
 
     def field_arr(self, name):
         a = self.fields.get(name)
         if a is None:
-            a = z3.Const("F0!%s" % name, ArrIV)
+            a = z3.Const("F%d!%s" % (self.heap_gen, name), ArrIV)
             self.fields[name] = a
         return a
 
@@ -619,15 +654,21 @@ class State:
         self.fields[name] = z3.Store(self.field_arr(name), ref_int, val)
         self.writes.append(("field", ref_int, name))
 
-    def alloc(self, cid):
+    def alloc(self, cid, data=True):
         rid = self.next_id
         self.next_id += 1
+        if data:
+            self.n_data_alloc = getattr(self, "n_data_alloc", 0) + 1
+        else:
+            # registry objects (functions, bound methods, modules): class known in Python, no heap entry
+            self.reg_class[rid] = cid
+            return rid
         self.fresh_refs.add(rid)
         self.typeof = z3.Store(self.typeof, z3.IntVal(rid), z3.IntVal(cid) if isinstance(cid, int) else cid)
         return rid
 
     def register(self, obj):
-        rid = self.alloc(self.table.id(obj.cid_name))
+        rid = self.alloc(self.table.id(obj.cid_name), data=False)
         self.registry[rid] = obj
         return VRef(rid)
 
@@ -675,7 +716,6 @@ class Snapshot:
     def field_arr(self, name):
         a = self.fields.get(name)
         if a is None:
-            # never written before the snapshot: same initial constant the live state uses
-            a = self.state.field_arr(name) if name not in self.state.fields else z3.Const("F0!%s" % name, ArrIV)
+            a = z3.Const("F%d!%s" % (self.heap_gen, name), ArrIV)
             self.fields[name] = a
         return a
